@@ -102,6 +102,30 @@ func main() {
 			}
 		}
 	}
+	// the owner of the input buffers reuses them while eight goroutines only read the decoded messages
+	for r := 0; r < reps; r++ {
+		sh := c19ops.SharedMessage()
+		want := c19ops.ReadShared(sh)
+		var wg sync.WaitGroup
+		start := make(chan struct{})
+		for g := 0; g < 9; g++ {
+			wg.Add(1)
+			go func(g int) {
+				defer wg.Done()
+				<-start
+				if g == 0 {
+					c19ops.ReuseInputs(sh, r)
+					return
+				}
+				if c19ops.ReadShared(sh) != want {
+					bad("read-shared while the input buffers are reused")
+				}
+			}(g)
+		}
+		close(start)
+		wg.Wait()
+		calls += 9
+	}
 	// 64-goroutine mix of all ops
 	for round := 0; round < rounds; round++ {
 		var wg sync.WaitGroup
